@@ -4,6 +4,7 @@
    c19_driver.py server  < params.json     built-in web server: snapshots served while integrating
    c19_driver.py torn    < params.json     hunt for snapshots served while reb_simulation_synchronize runs outside the mutex
    c19_driver.py steps   < params.json     snapshots served while the user calls sim.steps(n) / sim.step() (no mutex taken)
+   c19_driver.py keyboard < params.json    pause / single step / 50 steps / resume + pulls via the web server vs run without a server
    c19_driver.py fdclose < params.json     save/load of one simulation while another simulation's server thread closes descriptors twice
    c19_driver.py w512    < params.json     (avx512 build) two WHFast512 simulations alternated step by step vs separately
 Prints one JSON object on the last line of stdout."""
@@ -111,8 +112,10 @@ def build(spec):
         sim.ri_whfast.corrector = spec.get("corrector", 0)
     if integ == "saba":
         sim.ri_saba.type = spec.get("saba_type", "(10,6,4)")
+        sim.ri_saba.safe_mode = spec.get("safe_mode", 1)
     if integ == "mercurius":
         sim.ri_mercurius.r_crit_hill = 3.0
+        sim.ri_mercurius.safe_mode = spec.get("safe_mode", 1)
     if integ == "whfast512":
         sim.ri_whfast512.gr_potential = spec.get("gr", 0)
         sim.exact_finish_time = 0
@@ -547,6 +550,95 @@ def mode_steps(p):
     return res
 
 
+def particle_bits(sim):
+    return [struct.pack("<d", v).hex() for q in sim.particles for v in (q.x, q.y, q.z, q.vx, q.vy, q.vz)]
+
+
+def mode_keyboard(p):
+    """serving requests never alters the trajectory: reference run without a server  vs  run with a server whose client sends the
+    documented keyboard commands (pause, single step x2, 50 steps, resume) and pulls /simulation while paused and while running."""
+    wd = enter_workdir()
+    rng = random.Random(p["seed"])
+    spec = p["spec"]; tmax = p["tmax"]
+    ref = build(spec); ref.integrate(tmax)
+    refbits = particle_bits(ref); ref_t = ref.t; ref_steps = int(ref.steps_done)
+
+    def wait_for(cond, timeout=20.0):
+        t0 = time.time()
+        while time.time() - t0 < timeout:
+            if cond(): return True
+            time.sleep(0.0005)
+        return False
+
+    sim = build(spec)
+    sim.usleep = p["usleep_us"]
+    port = start_server_robust(sim, rng)
+    info = {"paused": False, "single_steps": 0, "multi_steps": 0, "pulls_running": 0, "snapshot": None, "err": None}
+    PAUSED = -3
+
+    def client():
+        try:
+            wait_for(lambda: sim.t > p["pause_at"] * tmax)
+            for _ in range(p["pulls_before"]):
+                fetch(port); info["pulls_running"] += 1
+            fetch(port, "/keyboard/32")                               # space: pause
+            if not wait_for(lambda: sim._status == PAUSED, 10.0):
+                return
+            time.sleep(0.02)
+            info["paused"] = True
+            for _ in range(2):                                         # arrow down: single step
+                s0 = int(sim.steps_done)
+                fetch(port, "/keyboard/264")
+                if wait_for(lambda: int(sim.steps_done) == s0 + 1 and sim._status == PAUSED, 10.0):
+                    info["single_steps"] += 1
+                time.sleep(0.01)
+            if p.get("page_down", True):
+                s0 = int(sim.steps_done)
+                fetch(port, "/keyboard/267")                           # page down: 50 steps
+                if wait_for(lambda: int(sim.steps_done) > s0 + 1 and sim._status == PAUSED, 20.0):
+                    info["multi_steps"] = int(sim.steps_done) - s0
+                time.sleep(0.01)
+            if sim._status == PAUSED:
+                info["snapshot"] = fetch(port)                         # pull while paused
+                info["t_snapshot"] = sim.t
+        except Exception as e:
+            info["err"] = repr(e)
+        finally:
+            try:
+                if sim._status == PAUSED:
+                    fetch(port, "/keyboard/32")                        # space: resume
+                wait_for(lambda: sim._status != PAUSED, 5.0)
+                for _ in range(p["pulls_after"]):
+                    if sim._status >= 0: break
+                    fetch(port); info["pulls_running"] += 1
+            except Exception as e:
+                info["err"] = info["err"] or repr(e)
+
+    th = threading.Thread(target=client)
+    th.start()
+    sim.integrate(tmax)
+    th.join(60)
+    if th.is_alive():
+        print(json.dumps({"hang": True})); sys.stdout.flush(); os._exit(3)
+    bbits = particle_bits(sim)
+    res = {"integrator": spec["integrator"], "paused": info["paused"], "single_steps": info["single_steps"], "multi_steps": info["multi_steps"],
+           "pulls_running": info["pulls_running"], "client_error": info["err"], "ref_steps": ref_steps,
+           "final_differing_doubles": sum(1 for a, b in zip(refbits, bbits) if a != b) + abs(len(refbits) - len(bbits)),
+           "final_t_equal": sim.t == ref_t, "steps_equal": int(sim.steps_done) == ref_steps, "snapshot_differing_doubles": None}
+    sim.stop_server()
+    if info["snapshot"] is not None:
+        s2 = rebound.Simulation(info["snapshot"])
+        s2._status = -1            # taken while paused; the continuing user is not paused
+        s2.usleep = 0
+        s2.integrate(tmax)
+        cb = particle_bits(s2)
+        res["snapshot_differing_doubles"] = sum(1 for a, b in zip(refbits, cb) if a != b) + abs(len(refbits) - len(cb))
+        res["t_snapshot"] = info.get("t_snapshot")
+    res["conclusive"] = bool(info["paused"] and info["single_steps"] > 0 and res["snapshot_differing_doubles"] is not None)
+    os.chdir("/"); shutil.rmtree(wd, ignore_errors=True)
+    return res
+
+
 def mode_fdclose(p):
     """simulation A serves requests (client in another process) while the main thread saves and re-loads simulation B.
     server.c closes each connection descriptor twice; the second close can hit B's file descriptor."""
@@ -621,7 +713,7 @@ if __name__ == "__main__":
     if mode == "client":
         mode_client(); sys.stdout.flush(); os._exit(0)
     params = json.load(sys.stdin)
-    res = {"conc": mode_conc, "server": mode_server, "torn": mode_torn, "w512": mode_w512, "fdclose": mode_fdclose, "steps": mode_steps}[mode](params)
+    res = {"conc": mode_conc, "server": mode_server, "torn": mode_torn, "w512": mode_w512, "fdclose": mode_fdclose, "steps": mode_steps, "keyboard": mode_keyboard}[mode](params)
     print(json.dumps(res))
     sys.stdout.flush()
     os._exit(0)
